@@ -143,6 +143,8 @@ def _inline_policy(ci, records=()):
             return True
         if callee.name == "ensure_alive":
             return True
+        if callee.owner is None and callee.parent is None and callee.module is ci.module and callee.name.startswith("_") and not any(fr.fi is callee for fr in path.frames) and len(path.frames) < 4:
+            return True  # private module-level helpers of the executor's module
         return False
     return pol
 
@@ -344,7 +346,8 @@ def _copy_helpers(ctx, rep):
         rep.ob("R-EXC-ID", "try_set_result stores the given value in the given future", len(s) == 1 and q.recv(s[0]) == ("param", ts.params[0]) and s[0].d["args"] == (("param", ts.params[1]),), "", where_of(ts))
     sy = prog.cls("SyncExecutor")
     sm = sy.methods.get("submit")
-    ps, it = ctx.paths(sm, sy, depth=1, inline=_gate_only)
+    ownsy = set(m.key for c in sy.mro() if isinstance(c, ClassInfo) for m in c.methods.values() if m.name != "__init__")
+    ps, it = ctx.paths(sm, sy, depth=3, inline=lambda callee, ev, path: callee.name == "ensure_alive" or callee.key in ownsy or (callee.owner is None and callee.parent is None and callee.module is sy.module and callee.name.startswith("_")))
     kinds = set()
     for p in ps:
         if p.status != "return":
@@ -364,6 +367,9 @@ def _copy_helpers(ctx, rep):
             s = [e for e in p.calls() if q.call_name(e) == "set_result" and q.recv(e) == p.value]
             rep.ob("R-EXC-ID", "SyncExecutor.submit: the callable's result is stored in the returned future", len(s) == 1 and s[0].d["args"] == (res,), "", where_of(sm), trace_of(p))
     rep.ob("R-EXC-ID", "SyncExecutor.submit: one call of the callable, whose result or exception becomes the future's outcome", kinds == {"raised", "returned"}, "paths found: %s" % sorted(kinds), where_of(sm))
+
+
+FACT = set()
 
 
 def _gate_only(callee, ev, path):
